@@ -391,6 +391,31 @@ func (m *MediaEngine) copy() *MediaEngine {
 	return cloned
 }
 
+// dryRunRemoteDescription reports the error updateFromRemoteDescription would return for desc without
+// changing the MediaEngine: the update runs on a private copy of its state.
+func (m *MediaEngine) dryRunRemoteDescription(desc sdp.SessionDescription) error {
+	m.mu.RLock()
+	scratch := &MediaEngine{
+		negotiatedVideo:       m.negotiatedVideo,
+		negotiatedAudio:       m.negotiatedAudio,
+		negotiateMultiCodecs:  m.negotiateMultiCodecs,
+		videoCodecs:           append([]RTPCodecParameters{}, m.videoCodecs...),
+		audioCodecs:           append([]RTPCodecParameters{}, m.audioCodecs...),
+		negotiatedVideoCodecs: append([]RTPCodecParameters{}, m.negotiatedVideoCodecs...),
+		negotiatedAudioCodecs: append([]RTPCodecParameters{}, m.negotiatedAudioCodecs...),
+		headerExtensions:      append([]mediaEngineHeaderExtension{}, m.headerExtensions...),
+	}
+	if m.negotiatedHeaderExtensions != nil {
+		scratch.negotiatedHeaderExtensions = make(map[int]mediaEngineHeaderExtension, len(m.negotiatedHeaderExtensions))
+		for id, ext := range m.negotiatedHeaderExtensions {
+			scratch.negotiatedHeaderExtensions[id] = ext
+		}
+	}
+	m.mu.RUnlock()
+
+	return scratch.updateFromRemoteDescription(desc)
+}
+
 func findCodecByPayload(codecs []RTPCodecParameters, payloadType PayloadType) *RTPCodecParameters {
 	for _, codec := range codecs {
 		if codec.PayloadType == payloadType {
